@@ -592,7 +592,11 @@ def _relkey(x):
 
 
 def _stable_by_src(items):
-    return sorted(items, key=lambda a: a[0][0])     # sorted() is stable: a linked pair keeps its call order
+    """the associations defined for one relationship, in an order that does not depend on the order of the
+    define_association calls (R_SUB rows are unordered; the order of the two calls for a linked relationship
+    is not part of the property): sorted by content"""
+    import json
+    return sorted(items, key=lambda a: json.dumps(a, sort_keys=True))
 
 
 # --------------------------------------------------------------------------- canonical observations
@@ -601,8 +605,7 @@ def canon_metamodel(c):
     """canonical form of the definitions held by a built pyxtuml metamodel:
        [[kl, [[attr, TYPE]...], [[num, [sorted names]]...]] sorted by kl,
         [[rel number, [[[src kind, keys, many, cond, phrase], [tgt ...]]...]] sorted by number]]
-    key pairs are sorted as pairs; associations of one relationship keep their definition order except
-    that they are (stably) ordered by source class (the R_SUB rows of a subtype relationship are unordered)"""
+    key pairs are sorted as pairs; the associations of one relationship are sorted by content"""
     classes = []
     for kind in c.metaclasses:
         mc = c.metaclasses[kind]
@@ -643,14 +646,6 @@ def canon_schema_sexp(s):
         if items:
             groups.append([g[0], _stable_by_src(items)])
     return [sorted(classes, key=lambda k: k[0]), sorted(groups, key=lambda g: _relkey(g[0]))]
-
-
-def schema_sexp(canon):
-    """canonical form -> the s-expression the Lean driver reads (c14-sedit)"""
-    classes = [[c[0], [[a[0], a[1]] for a in c[1]], [[i[0]] + list(i[1]) for i in c[2]]] for c in canon[0]]
-    groups = [[g[0]] + [[[e[0], list(e[1]), bool(e[2]), bool(e[3]), e[4]] for e in item] for item in g[1]]
-              for g in canon[1]]
-    return [classes, groups]
 
 
 # --------------------------------------------------------------------------- edits (diagram level and population level)
